@@ -72,7 +72,7 @@ func c15Wide(g *Gen, rep *Report, outDir string, n int) error {
 	cwSplit := NewCaseWriter(outDir, "Cases_C15_usplit", hdrSplit, "list bytes * bytes * bytes * bytes * bool")
 	addSplit := func(names ap.CollectionPaths, i string, label string) {
 		o, t := names.Split(ap.IRI(i))
-		cwSplit.Add("("+coqNames(names)+", "+hx([]byte(i))+", "+hx([]byte(o))+", "+hx([]byte(t))+", "+cbool(!strings.ContainsAny(i, "@["))+")", label)
+		cwSplit.Add("("+coqNames(names)+", "+hx([]byte(i))+", "+hx([]byte(o))+", "+hx([]byte(t))+", "+cbool(true)+")", label)
 	}
 	hdrStr := pre +
 		"Definition ok (c : bytes * bytes * bytes * option bytes * (bool * bool * bool) * bool * bool) : bool :=\n" +
@@ -92,7 +92,7 @@ func c15Wide(g *Gen, rep *Report, outDir string, n int) error {
 		tt := ap.CollectionPath(t)
 		cwStr.Add("("+hx([]byte(i))+", "+hx([]byte(t))+", "+hx([]byte(j))+", "+oas+", ("+
 			cbool(ap.ValidActivityCollection(tt))+", "+cbool(ap.ValidObjectCollection(tt))+", "+cbool(ap.ValidCollection(tt))+"), "+cbool(ap.ValidCollectionIRI(j))+", "+
-			cbool(!strings.ContainsAny(string(j), "@["))+")", label)
+			cbool(true)+")", label)
 	}
 	hdrEq := pre +
 		"Definition ok (c : bytes * bytes * bool * bool) : bool := let '(a, b, cs, o) := c in\n" +
